@@ -186,6 +186,50 @@ pub fn generate(r: &mut Runner) {
         }
         r.run(c, nt);
     }
+    // LONG runs on one instance (a state flag kept in a narrow counter, a periodic re-seed … only shows after 2^16 / 2^20
+    // calls): 70 000 inputs quick, 2^20 + 100 thorough, every step compared with the incremental reference; not logged
+    // to the model driver (the model tie of these indicators is exercised by the short cases)
+    {
+        let len = if r.tier == Tier::Quick { 70_000usize } else { (1usize << 20) + 100 };
+        let saved = r.log_every;
+        r.log_every = u64::MAX;
+        for ind in INDS {
+            for bars in [false, true] {
+                if !bars && !crate::ind::has_next_name(ind) {
+                    continue;
+                }
+                let np = crate::ind::arity(ind).unwrap().0;
+                let nm = crate::ind::arity(ind).unwrap().1;
+                let ps: Vec<usize> = (0..np).map(|j| [14usize, 26, 9][j % 3]).collect();
+                let ms: Vec<f64> = (0..nm).map(|_| 2.0).collect();
+                let mut c = Case::new("C02", if bars { "long-run-bars" } else { "long-run-scalars" }, ind, &ps, &ms);
+                let xs = gen::stream(&mut r.rng, "walk", len, true, 100.0);
+                if bars {
+                    c.ops = gen::valid_bars(&mut r.rng, &xs).into_iter().map(Op::Bar).collect();
+                } else {
+                    c.ops = xs.into_iter().map(Op::Next).collect();
+                }
+                r.run(c, true);
+            }
+        }
+        r.log_every = saved;
+    }
+    // HUGE positive scalars (0.61..0.75 × 1e308, above f64::MAX / 3): every quantity of the documented definitions stays
+    // finite there (|multiplier| <= 0.5), so a detour through `(x + x + x) / 3` or any other intermediate that overflows shows
+    for ind in ["ExponentialMovingAverage", "TrueRange", "AverageTrueRange", "MovingAverageConvergenceDivergence", "KeltnerChannel"] {
+        for rep in 0..(if r.tier == Tier::Quick { 6 } else { 60 }) {
+            let np = crate::ind::arity(ind).unwrap().0;
+            let nm = crate::ind::arity(ind).unwrap().1;
+            let ps: Vec<usize> = (0..np).map(|_| gen::period(&mut r.rng, if rep % 2 == 0 { 5 } else { 64 })).collect();
+            let ms: Vec<f64> = (0..nm).map(|_| *r.rng.pick(&[0.5, -0.5, 0.25, 0.0])).collect();
+            let mut c = Case::new("C02", "huge-positive-scalars", ind, &ps, &ms);
+            let n = r.rng.range(2, 60);
+            for _ in 0..n {
+                c.ops.push(Op::Next(1e308 * (0.61 + 0.14 * r.rng.unit())));
+            }
+            r.run(c, true);
+        }
+    }
     // every listed multiplier at least once for both band indicators, on bars (and scalars for KeltnerChannel)
     for ind in ["KeltnerChannel", "ChandelierExit"] {
         for m in MULTIPLIERS {
@@ -201,4 +245,4 @@ pub fn generate(r: &mut Runner) {
     }
 }
 
-pub const RULE: &str = "small scope: every scalar sequence of the stated depth over {-2,0,1,3,1e6} for periods 1..=3 (period 1 ⇒ α = 1; MACD with equal and inverted fast/slow; KeltnerChannel once per multiplier of {2,-1.5,2.1,0}); sampled: periods to 1024 (equal fast/slow forced in 20% of MACD cases), multipliers of KeltnerChannel/ChandelierExit from {0,0.5,1,2,3,10,-1,-2,-0.5,-2.5,-1.618,2.1,1.618,0.1,1e-3,1e-9,1e3,1e6,-1e-9,-1e6} (zero, negative — the bands swap sides —, fractional values not representable in f64/f32, tiny, huge) or, in a fifth of the cases, ±10^u with u uniform in [-3,3]; in addition a sweep running every listed multiplier at least twice (thorough: 6×) per band indicator; scalar streams of any sign and valid bars (gap up / gap down / inside bars arise from the walk, alt and spike regimes), all prefixes checked; tolerance tau(t)·M·max(1,|multiplier|). Non-trivial = at least 3 inputs (recursion exercised beyond seeding); distinct = distinct encodings.";
+pub const RULE: &str = "small scope: every scalar sequence of the stated depth over {-2,0,1,3,1e6} for periods 1..=3 (period 1 ⇒ α = 1; MACD with equal and inverted fast/slow; KeltnerChannel once per multiplier of {2,-1.5,2.1,0}); sampled: periods to 1024 (equal fast/slow forced in 20% of MACD cases), multipliers of KeltnerChannel/ChandelierExit from {0,0.5,1,2,3,10,-1,-2,-0.5,-2.5,-1.618,2.1,1.618,0.1,1e-3,1e-9,1e3,1e6,-1e-9,-1e6} (zero, negative — the bands swap sides —, fractional values not representable in f64/f32, tiny, huge) or, in a fifth of the cases, ±10^u with u uniform in [-3,3]; in addition a sweep running every listed multiplier at least twice (thorough: 6×) per band indicator; scalar streams of any sign and valid bars (gap up / gap down / inside bars arise from the walk, alt and spike regimes), all prefixes checked; tolerance tau(t)·M·max(1,|multiplier|). Long runs: one instance per indicator and input kind fed 70 000 (quick) / 2^20+100 (thorough) inputs, every step compared. Huge positive scalars 0.61..0.75×1e308 (above f64::MAX/3) with |multiplier| <= 0.5 for the scalar path of EMA, TR, ATR, MACD, KC. Non-trivial = at least 3 inputs (recursion exercised beyond seeding); distinct = distinct encodings.";
